@@ -227,6 +227,57 @@ def run(ctx):
         except Exception as e:
             ctx.violation('System.dvect/dmag/displacement raised %s on valid input' % excname(e), repr(e),
                           {'v': v, 'o': o, 'pbc': pbc})
+    # ---- 3b. wide dynamic range: cells hundreds of units across, pairs whose nearest image lies 1e-6..1e-3 units away across a
+    #          periodic face.  The integers involved (cell 2^30, squares 2^60) are outside TLC's 32-bit range, so the same three laws the
+    #          trace module states (lattice image, not longer than any of the 27 candidates, |dvect| = dmag) are evaluated here with
+    #          Python integers.  All float inputs are dyadic and every subtraction in a faithful implementation is exact.
+    import itertools
+    Qb = 2 ** 20
+    for wi in range(16 if quick else 200):
+        L = [int(x) for x in rng.integers(100, 800, 3)]
+        tl = [int(rng.integers(-L[0] // 2, L[0] // 2 + 1)) if rng.random() < .6 else 0 for _ in range(3)]
+        vw = [[L[0], 0, 0], [tl[0], L[1], 0], [tl[1], tl[2], L[2]]]
+        if rng.random() < .3:
+            perm = rng.permutation(3)
+            sg = rng.choice([-1, 1], 3)
+            vw = [[int(sg[j] * row[perm[j]]) for j in range(3)] for row in vw]
+        ow = [int(x) for x in rng.integers(-50, 51, 3)] if rng.random() < .5 else [0, 0, 0]
+        pw = [bool(x) for x in rng.integers(0, 2, 3)]
+        pw[int(rng.integers(0, 3))] = True
+        Vw = np.array(vw, dtype=object) * Qb
+        nw = 40
+        rel = rng.integers(0, Qb + 1, (nw, 3))
+        P0w = np.array([[int(ow[k]) * Qb + sum(int(rel[i, j]) * int(vw[j][k]) for j in range(3)) for k in range(3)] for i in range(nw)], dtype=object)
+        sh = np.array([[int(rng.integers(-1, 2)) if pw[j] else 0 for j in range(3)] for _ in range(nw)], dtype=object)
+        dl = np.array([[int(x) for x in rng.integers(-2 ** int(rng.integers(0, 11)), 2 ** int(rng.integers(0, 11)) + 1, 3)] for _ in range(nw)], dtype=object)
+        P1w = P0w + sh.dot(Vw) + dl
+        f0 = np.array(P0w, dtype=float) / Qb
+        f1 = np.array(P1w, dtype=float) / Qb
+        bw = am.Box(vects=np.array(vw, dtype=float), origin=np.array(ow, dtype=float))
+        ctx.count(nw)
+        try:
+            dvw = np.asarray(am.dvect(f0, f1, bw, pw))
+            dmw = np.asarray(am.dmag(f0, f1, bw, pw))
+            sysw = am.System(atoms=am.Atoms(pos=np.vstack([f0, f1])), box=bw, pbc=pw)
+            dms = np.asarray(sysw.dmag(list(range(nw)), list(range(nw, 2 * nw))))
+        except Exception as e:
+            ctx.violation('dvect/dmag raised %s on valid input' % excname(e), repr(e)[:200], {'v': vw, 'o': ow, 'pbc': pw})
+            continue
+        shifts = [c for c in itertools.product((-1, 0, 1), repeat=3) if all(pw[j] or c[j] == 0 for j in range(3))]
+        for i in range(nw):
+            d0 = P1w[i] - P0w[i]
+            m27 = min(sum(int(x) ** 2 for x in (d0 + np.array(c, dtype=object).dot(Vw))) for c in shifts)
+            want = (m27 ** 0.5) / Qb
+            got = float(np.linalg.norm(dvw[i]))
+            ctx.nontriv(('wide', wi, i))
+            where = {'v': vw, 'o': ow, 'pbc': pw, 'p0': f0[i].tolist(), 'p1': f1[i].tolist()}
+            if abs(got - want) > 1e-9 * want + 1e-300:
+                ctx.violation('dvect: not the nearest of the 27 candidates [cell hundreds of units across, separation below 1e-3]', 'got %r expected %r' % (got, want), where)
+            if abs(float(dmw[i]) - want) > 1e-9 * want + 1e-300 or abs(float(dms[i]) - want) > 1e-9 * want + 1e-300:
+                ctx.violation('dmag differs from the length of dvect [cell hundreds of units across, separation below 1e-3]',
+                              'dmag %r System.dmag %r |dvect| %r expected %r' % (float(dmw[i]), float(dms[i]), got, want), where)
+        ctx.traces += 1
+
     # ---- 4. TLC decides every record ------------------------------------------------------------------
     for r_ in recs:
         ctx.count()
